@@ -51,29 +51,94 @@ Theorem C20_blanks_ignored : forall s, parse_query (trim s) = parse_query s.
 Proof. exact parse_trim. Qed.
 Print Assumptions C20_blanks_ignored.
 
-(* Payload, on the fragment literal text + {{ name }}: only the supplied variables that the
-   entry mentions are consulted; a placeholder is replaced by the (escaped) supplied value or
-   by nothing. *)
+(* Payload.  Fragment: literal text, {{ name }}, {{ expression }} with string literals, names,
+   util.PrefixedOverride / PrefixedOverride (the utility function that reads the variable stack)
+   and the string functions ToUpper / ToLower / TrimSpace / TrimQuotes.
+   [render vars t] is the pure per-request result; None = the request is refused. *)
+
+(* it depends on the supplied variables only through: whether every (trimmed) key is an
+   identifier, the values of the names the entry mentions, and - if the entry calls
+   PrefixedOverride - the values under the keys as supplied *)
 Theorem C20_template_vars_only : forall vars vars' t,
-  (forall n, In (TVar n) t -> assoc n (bindings vars) = assoc n (bindings vars')) ->
+  keys_ok (bindings vars) = keys_ok (bindings vars') ->
+  (forall n, In n (tpl_names t) -> assoc n (bindings vars) = assoc n (bindings vars')) ->
+  (tpl_overrides t = true -> forall k, assoc k vars = assoc k vars') ->
   render vars t = render vars' t.
 Proof. exact render_only_supplied. Qed.
 Print Assumptions C20_template_vars_only.
 
 Theorem C20_template_compositional : forall vars t1 t2,
-  render vars (t1 ++ t2) = render vars t1 ++ render vars t2.
+  render vars (t1 ++ t2) =
+  match render vars t1, render vars t2 with Some a, Some b => Some (a ++ b) | _, _ => None end.
 Proof. exact render_app. Qed.
 Print Assumptions C20_template_compositional.
 
-Theorem C20_template_literal : forall vars s, render vars [TLit s] = s.
+Theorem C20_template_literal : forall vars s,
+  keys_ok (bindings vars) = true -> render vars [TLit s] = Some s.
 Proof. exact render_lit. Qed.
 Print Assumptions C20_template_literal.
 
 Theorem C20_template_placeholder : forall vars n,
+  keys_ok (bindings vars) = true ->
   render vars [TVar n] =
-  match assoc n (bindings vars) with Some v => escape_html v | None => [] end.
+  Some (match assoc n (bindings vars) with Some v => escape_html v | None => [] end).
 Proof. exact render_var. Qed.
 Print Assumptions C20_template_placeholder.
+
+(* {{ util.PrefixedOverride("n", "p") }} is replaced by the (escaped) value the supplied variables
+   give p_n if that is usable (present, not "none", not blank), else by the usable value of n,
+   else by nothing; the legacy spelling means the same *)
+Theorem C20_template_override : forall vars l n p,
+  keys_ok (bindings vars) = true ->
+  render vars [TExp (EPO l (ELit n) (ELit p))] = Some (escape_html (prefixed_override vars n p)).
+Proof. exact render_override. Qed.
+Print Assumptions C20_template_override.
+
+Theorem C20_override_value : forall raw n p,
+  let r := prefixed_override raw n p in
+  usable raw (p ++ 95 :: n) r \/
+  (unusable raw (p ++ 95 :: n) /\ (usable raw n r \/ (unusable raw n /\ r = []))).
+Proof. exact prefixed_override_spec. Qed.
+Print Assumptions C20_override_value.
+
+(* The Service across requests: one cached template set per directory, entries rewritten in the
+   backend, cache invalidations - for every history of operations.
+   [step]/[run] carry the switch set from the source (Gen_TplCache). *)
+
+(* no data of a request is kept by the Service and the function map handed to the template is
+   built from the variables of the request (translator tplcache over apricot/local) *)
+Theorem C20_request_data_not_cached_in_source :
+  tplcache_request_data_cached = false /\ tplcache_funcmap_from_request = true /\ fm_shared = false.
+Proof. exact request_data_not_cached_in_source. Qed.
+Print Assumptions C20_request_data_not_cached_in_source.
+
+(* the payload of a request does not depend on the variables of any earlier request *)
+Theorem C20_payload_noninterference : forall st h h' p vars,
+  Forall2 op_shape h h' ->
+  snd (step (fst (run st h)) (OReq p vars)) = snd (step (fst (run st h')) (OReq p vars)).
+Proof. exact noninterference. Qed.
+Print Assumptions C20_payload_noninterference.
+
+(* it is the template in effect (compiled at the first request since the last invalidation)
+   rendered with exactly the variables of this request *)
+Theorem C20_payload_this_request : forall st p vars,
+  snd (step st (OReq p vars)) =
+  match in_effect st p with Some t => render vars t | None => None end.
+Proof. exact step_payload. Qed.
+Print Assumptions C20_payload_this_request.
+
+(* as long as no entry is rewritten every request on a Service gets the pure per-request result,
+   whatever was asked before; and so again after an invalidation, whatever happened before it *)
+Theorem C20_payload_pure : forall be h,
+  no_put h = true -> snd (run (fresh be) h) = pure_outs be h.
+Proof. exact pure_run_fresh. Qed.
+Print Assumptions C20_payload_pure.
+
+Theorem C20_payload_pure_after_invalidation : forall st h1 h2,
+  no_put h2 = true ->
+  snd (run (fst (run st (h1 ++ [OInv]))) h2) = pure_outs (s_backend (fst (run st h1))) h2.
+Proof. exact pure_after_invalidation. Qed.
+Print Assumptions C20_payload_pure_after_invalidation.
 
 (* Query parameters (k=v(&k=v)* with the "process" flag): accepted strings are exactly the
    printed forms of well-formed item lists, and parsing returns exactly what they spell. *)
@@ -101,5 +166,20 @@ Example C20_nonvacuous :
   resolve (fun p => str_eqb p (print_query (with_any_role q))) q = Some (with_any_role q) /\
   wf_kvs [([97], [49;44;50]); (k_process, [70])] = true /\
   parse_params ([32] ++ print_kvs [([97], [49;44;50]); (k_process, [70])]) =
-    Some (mkParams false [([97], [49;44;50])]).
+    Some (mkParams false [([97], [49;44;50])]) /\
+  (* an override entry asked twice on one Service with different variables *)
+  (let p := [100;47;111] in
+   let be := [(p, [TLit [119;102;61]; TExp (EPO false (ELit [119]) (EVar [100]))])] in
+   let its := [([100], [105]); ([105;95;119], [73]); ([119], [70])] in
+   let tpc := [([100], [116]); ([119], [70])] in
+   snd (run (fresh be) [OReq p its; OReq p tpc]) = [Some [119;102;61;73]; Some [119;102;61;70]] /\
+   no_put [OReq p its; OReq p tpc] = true).
 Proof. vm_compute. repeat split; reflexivity. Qed.
+
+(* had the function map been registered with the cached template set (switch on), the payload
+   would depend on the variables of an earlier request *)
+Example C20_shared_function_map_leaks :
+  exists be p v1 v2 v,
+    snd (step_g true (fst (run_g true (fresh be) [OReq p v1])) (OReq p v)) <>
+    snd (step_g true (fst (run_g true (fresh be) [OReq p v2])) (OReq p v)).
+Proof. exact shared_function_map_leaks. Qed.
